@@ -1,8 +1,28 @@
-(* C03 entry points: the batch-processor acceptor (Batch/Model.v) + the C03 history checkers. *)
-From V Require Export Batch.Spec.
-Definition run_model := batch_run_model.
-Definition run_tag := batch_run_tag.
+(* C03 entry points: the batch-processor acceptor (Batch/Model.v) + the C03 history checkers for BATCH cases,
+   the simple-processor acceptor (Batch/Simple.v) for SIMPLE cases. *)
+From V Require Export Batch.Spec Batch.Simple Batch.Periodic.
+
+Definition is_simple (l : list tok) : bool := match l with t :: _ => is_tag "SIMPLE" t | [] => false end.
+Definition trace_part (l : list tok) : list tok := match split_toks "||" l with [_; tr] => tr | _ => [] end.
+
+Definition is_periodic (l : list tok) : bool := match l with t :: _ => is_tag "PERIODIC" t | [] => false end.
+Definition run_model (l : list tok) : list tok :=
+  if is_simple l then simple_model (trace_part l) else
+  if is_periodic l then periodic_model (trace_part l) else batch_run_model l.
+Definition run_tag (l : list tok) : list tok :=
+  if is_simple l then [tag "simple"] else if is_periodic l then periodic_tag (trace_part l) else batch_run_tag l.
 Definition run_spec (l obs : list tok) : list tok :=
+  if is_simple l
+  then match obs with
+       | t :: _ => if is_tag "X" t then simple_spec (trace_part l) else fail "terminate:crash_or_deadlock"
+       | [] => fail "obs:unparsable"
+       end
+  else if is_periodic l
+  then match obs with
+       | t :: _ => if is_tag "X" t then periodic_spec3 (trace_part l) else fail "terminate:crash_or_deadlock"
+       | [] => fail "obs:unparsable"
+       end
+  else
   match parse_case l with
   | None => bad_case
   | Some c =>
